@@ -398,6 +398,14 @@ dbus_bool_t _dbus_string_equal (const DBusString *a, const DBusString *b)
   g_eq_a = a; g_eq_b = b; g_eq_result = r; g_eq_calls++;
   return r;
 }
+/* "Tests two DBusString for equality up to the given length" - a PREFIX comparison: it is not evidence of equality of
+ * the whole strings (g_eq_* is not touched).  Not called by the unchanged code on the paths under contract; present so
+ * that a change that compares only a prefix is refuted by the hash-equality obligations instead of leaving the unit undecided. */
+dbus_bool_t _dbus_string_equal_len (const DBusString *a, const DBusString *b, int len)
+{
+  STR_PRE (a, "_dbus_string_equal_len"); STR_PRE (b, "_dbus_string_equal_len"); PRE (len >= 0, "_dbus_string_equal_len: length");
+  return nondet_bool ();
+}
 /* "Checks whether a string is equal to a C string." */
 const char *g_eqc_true; int g_eqc_calls;       /* the literal that compared equal last */
 dbus_bool_t _dbus_string_equal_c_str (const DBusString *a, const char *c_str)
